@@ -8,6 +8,11 @@ Theorem C13_range : forall name n, 1 <= n < two32 ->
 Proof. exact shard_id_range. Qed.
 Print Assumptions C13_range.
 
+(* with a single shard every upstream, whatever bytes its name holds, is shard 0 *)
+Theorem C13_single_shard : forall name, shard_id name 1 = Some 0.
+Proof. exact single_shard. Qed.
+Print Assumptions C13_single_shard.
+
 (* gateway side (clientSets.ShardIDFor) and server side (util.GetShardID) compute the same shard *)
 Theorem C13_both_sides : forall name n, n <> 0 -> gw_shard_id name n = shard_id name n.
 Proof. exact both_sides. Qed.
@@ -20,6 +25,7 @@ Theorem C13_guard : forall s o u,
 Proof. exact guard. Qed.
 Print Assumptions C13_guard.
 
+(* an allocate (status update) or acquire call is answered OK only by the leader of the upstream's shard *)
 Theorem C13_serve_only_leader : forall s o u i,
   (o = OUpdate u i \/ o = OAcquire u i) -> snd (step s o) = ROk -> is_leader s (shard_of s u) = true.
 Proof. exact serve_only_leader. Qed.
